@@ -49,9 +49,12 @@ func scenarios(tier string) []engine.Scenario {
 				scs = append(scs, seqScenario(cc, cfg, withP))
 				if cc.concurrent && cc.kind == shallow && len(cc.ops) > 0 {
 					scs = append(scs, concScenario(cc, cfg, withP, 2, 1))
-					if tier == "thorough" {
-						scs = append(scs, concScenario(cc, cfg, withP, 2, 2))
+					if len(cc.ops) <= 2 || tier == "thorough" {
+						scs = append(scs, concScenario(cc, cfg, withP, 2, 2)) // programs of two operations per thread
 						scs = append(scs, concScenario(cc, cfg, withP, 3, 1))
+					}
+					if tier == "thorough" && len(cc.ops) <= 3 {
+						scs = append(scs, concScenario(cc, cfg, withP, 3, 2))
 					}
 				}
 			}
